@@ -91,4 +91,18 @@ pub mod tokio { pub mod sync { pub mod watch {
     #[verifier::external_body]
     #[verifier::reject_recursive_types(T)]
     pub struct Sender<T> { _p: PhantomData<T> }
+    impl<T> Receiver<T> {
+        /// ghost identity of the watch channel this handle belongs to
+        pub uninterp spec fn chan(&self) -> int;
+    }
+    impl<T> Sender<T> {
+        /// ghost identity of the watch channel this handle belongs to
+        pub uninterp spec fn chan(&self) -> int;
+    }
+    /// `tokio::sync::watch::channel(init)`: the two handles of ONE new channel (nothing is said about other channels:
+    /// that two calls give different channels is not expressible without global ghost state and is not claimed)
+    #[verifier::external_body]
+    pub fn channel<T>(init: T) -> (r: (Sender<T>, Receiver<T>))
+        ensures r.0.chan() == r.1.chan()
+    { unimplemented!() }
 } } }
